@@ -138,7 +138,12 @@ func (fr *Frame) alloc(x *ssa.Alloc, st *State) Val {
 		st.cells[id] = Val{T: et, Term: c.zero(et)}
 		return Val{T: x.Type(), Addr: &Addr{Kind: akLocal, CellID: id, RootT: et}}
 	}
-	return fr.newObject(et, x.Type(), st, x.Comment)
+	v := fr.newObject(et, x.Type(), st, x.Comment)
+	if v.Addr != nil && v.Addr.Kind == akCell && privateVar(x) {
+		name, sort := c.cellHeap(et)
+		c.privateCells = append(c.privateCells, frozenCell{heap: name, sort: sort, ref: v.Addr.Ref})
+	}
+	return v
 }
 
 // newObject allocates a zeroed heap object of type et and returns a pointer to it.
@@ -166,6 +171,84 @@ func (fr *Frame) newObject(et types.Type, pt types.Type, st *State, hint string)
 		c.writeRoot(st, a, Val{T: et, Term: c.zero(et)})
 		return Val{T: pt, Addr: a}
 	}
+}
+
+// privateVar: a captured variable whose address never leaves the function: it is only read and written directly and
+// captured by closures that the function itself only calls or defers (never passes on, stores or starts with go).
+// Code behind `modifies everything` cannot reach such a variable.
+func privateVar(al *ssa.Alloc) bool {
+	refs := al.Referrers()
+	if refs == nil {
+		return false
+	}
+	for _, r := range *refs {
+		switch x := r.(type) {
+		case *ssa.UnOp:
+			if x.Op != token.MUL {
+				return false
+			}
+		case *ssa.Store:
+			if x.Addr != ssa.Value(al) || x.Val == ssa.Value(al) {
+				return false
+			}
+		case *ssa.DebugRef:
+		case *ssa.MakeClosure:
+			cr := x.Referrers()
+			if cr == nil {
+				return false
+			}
+			for _, u := range *cr {
+				switch y := u.(type) {
+				case *ssa.Defer:
+					if y.Call.Value != ssa.Value(x) {
+						return false
+					}
+				case *ssa.Call:
+					if y.Call.Value != ssa.Value(x) {
+						return false
+					}
+				case *ssa.DebugRef:
+				default:
+					return false
+				}
+			}
+			// the closure must not leak the variable either: inside it, the free variable is only loaded/stored
+			fn, ok := x.Fn.(*ssa.Function)
+			if !ok {
+				return false
+			}
+			for i, b := range x.Bindings {
+				if b != ssa.Value(al) {
+					continue
+				}
+				if i >= len(fn.FreeVars) {
+					return false
+				}
+				fr := fn.FreeVars[i].Referrers()
+				if fr == nil {
+					return false
+				}
+				for _, u := range *fr {
+					switch y := u.(type) {
+					case *ssa.UnOp:
+						if y.Op != token.MUL {
+							return false
+						}
+					case *ssa.Store:
+						if y.Addr != ssa.Value(fn.FreeVars[i]) || y.Val == ssa.Value(fn.FreeVars[i]) {
+							return false
+						}
+					case *ssa.DebugRef:
+					default:
+						return false
+					}
+				}
+			}
+		default:
+			return false
+		}
+	}
+	return true
 }
 
 // nilCheck emits the nil-dereference obligation for a reference term (once per state).
